@@ -1013,6 +1013,7 @@ class DesignGen:
     for i in range(n):
       fields = []
       total = 0
+      pool = ["f0", "f1", "f2", "f3"] if c.random() < 0.4 else c.sample(["f0", "f1", "f2", "f3", "a", "zz", "m", "d9", "b"], 4)
       for j in range(c.randint(2, 4)):
         r = c.random()
         if r < 0.2 and i > 0:
@@ -1023,7 +1024,8 @@ class DesignGen:
           ft = c.choice(WIDTHS[:14])
         # some field names are string prefixes of a sibling's name (f1 / f1x): name-based bookkeeping
         # in the SCC variable list and in name tables must still tell them apart
-        name = "f%d" % j
+        # declaration order is NOT alphabetical order in general (layout follows declaration order)
+        name = pool[j]
         if j >= 1 and c.random() < 0.3:
           name = fields[-1][0] + "x"
         fields.append([name, ft])
